@@ -89,6 +89,10 @@ def run_property(pid, spec, tier="quick", repo=REPO, quiet=False, write_evidence
     for k, fs in known_hit.items():
         say("KNOWN-FINDING: property=%s %s [%s; %d site(s)]" % (pid, known_keys[k]["what_fails"], k, len(fs)))
     vdir = os.path.join(VERIF, "evidence", "violations")
+    if os.path.isdir(vdir):
+        for fn_ in os.listdir(vdir):
+            if fn_.startswith(pid + "-"):
+                os.remove(os.path.join(vdir, fn_))
     code = 0
     n = 0
     for (r, f) in violations:
